@@ -670,6 +670,14 @@ class RealSolver(Family):
                 resid = np.max(np.abs(G @ V - V * ev[:r][None, :])) / scale
                 if resid > TOL:
                     items.append(f"{rep}|eigvec|residual {resid:.2e} against the r largest eigenvalues in decreasing order")
+                captured = float(np.trace(V.T @ G @ V))
+                if abs(captured - float(np.sum(ev[:r]))) > TOL * scale * r:
+                    items.append(f"{rep}|energy|captured energy {captured:.6g} differs from the sum of the r largest "
+                                 f"eigenvalues {float(np.sum(ev[:r])):.6g}")
+                else:
+                    Wr, _ = np.linalg.qr(np.random.default_rng(c["seed"] % 1000 + r).standard_normal((m, r)))
+                    if float(np.trace(Wr.T @ G @ Wr)) > captured + TOL * scale * r:
+                        items.append(f"{rep}|energy|a random orthonormal frame captures more energy")
                 if fs:
                     for j in range(r):
                         if np.max(V[:, j]) < np.max(np.abs(V[:, j])) * (1 - 1e-12):
